@@ -1,11 +1,15 @@
 PROP = {
     "id": "C37",
     "theorem_modules": ["Verif.Properties.C37"],
-    "min_theorems": 6,
+    "min_theorems": 12,
     "required_theorems": [
         "Verif.Properties.C37.lexer_clear_complete",
         "Verif.Properties.C37.token_numbering_pinned",
         "Verif.Properties.C37.depth_guard",
+        "Verif.Properties.C37.tokens_contiguous",
+        "Verif.Properties.C37.lex_loops_total_partial",
+        "Verif.Properties.C37.linecol_witness_multibyte",
+        "Verif.Properties.C37.linecol_witness_empty_token",
     ],
     "gen": [["vtool", "gen-lexerfacts"]],
     "harness_files": ["c37_gen.go"],
@@ -20,10 +24,12 @@ PROP = {
     "technique": "Lean 4 proof over a line-by-line port of the lexer (parser/lexer/lexer.go + state.go) + fact extraction "
                  "(pooled struct vs clear(), token numbering, limits, depth guards) + correspondence stream on generated "
                  "byte strings; parser and checker by direct-oracle stream only",
-    "level_text": "Lean theorems about a code-shaped model of the lexer, for every byte string: the port terminates without a "
-                  "Go panic other than the token limit, consecutive tokens are contiguous from offset 0 and lie inside the "
-                  "input, line numbers and (outside two documented column defects) columns equal the position computed from "
-                  "scratch; `decide` obligations over facts regenerated from /repo: clear() resets every field of the pooled "
+    "level_text": "Lean theorems about a code-shaped model of the lexer, for every byte string: consecutive consuming tokens "
+                  "are contiguous from offset 0 (tokens_contiguous, full); totality only PARTIAL (the inner loops and emit "
+                  "stay inside the input and raise no panic from any in-bounds state; the composition through the state "
+                  "functions and run's fuel bound are not proved, the stream flags any hang/panic); line/column exactness is "
+                  "NOT proved: two column defects are proved as witnesses (known findings) and positions are judged per input "
+                  "by the stream against Spec.LineCol; `decide` obligations over facts regenerated from /repo: clear() resets every field of the pooled "
                   "lexer to the model's initial state, token numbering, tokenLimit, the parser's two depth guards. Tied to "
                   "/repo by the `lex` stream (Go token list = port's token list, token by token, several inputs back to back "
                   "on the pooled lexer; the Go tokens are also judged directly against the position spec). PARTIAL for "
